@@ -243,14 +243,52 @@ Definition called (g : bshared) (i : N) : Prop := In i (map fst (calls g)).
 Definition terminal (g : bshared) (t : nat) (l : bpc) : Prop :=
   match l with BDone => True | BIdle => spawned g t = false | _ => False end.
 
-(* the site the lock-step controller observes for a thread about to take a step
-   (0 = no shared access / not scheduled by the controller) *)
-Definition bsite (l : bpc) : nat :=
+(* ---- replay of lock-step executions of the real task_function (harness/c11_lock.cpp) ----
+   [bsite]: the park point at which the real thread waits before the step (0 = the step touches
+   no shared state and has no park point: it is executed together with the preceding step).
+     1 queue LOAD (1701)   2 queue CAS (1702)   3 entry of f   4 exit of f   5 finish (1105)
+     6 store_exception exchange (1106)   7 store_exception store (1107)
+     9 spawn loop: queue.empty() of the next worker   10 start of a spawned task   11 set_value entry *)
+Definition bsite (cf : cfg) (g : bshared) (t : nat) (l : bpc) : nat :=
   match l with
-  | BPop _ Idle => 1 | BPop _ (Loaded _ _) => 2
-  | BExch _ => 6 | BStore _ => 7 | BDec _ => 5
-  | _ => 0
-  end%nat.
+  | BIdle => if spawned g t then 10%nat else 0%nat
+  | BEntry => 11%nat
+  | BSpawn w => if (w <? cW cf)%nat && negb (Nat.eqb w (clocal cf)) then 9%nat else 0%nat
+  | BPop _ Idle => 1%nat
+  | BPop _ (Loaded _ _) => 2%nat
+  | BRun _ _ i e => if i <? e then 3%nat else 0%nat
+  | BCall _ _ _ _ => 4%nat
+  | BDec _ => 5%nat
+  | BExch _ => 6%nat
+  | BStore _ => 7%nat
+  | BSig _ => 0%nat
+  | BDone => 0%nat
+  end.
+Definition bfinal (l : bpc) : bool := match l with BDone | BIdle => true | _ => false end.
+
+Fixpoint settle (cf : cfg) (fuel : nat) (t : nat) (c : bshared * (nat -> bpc)) : bshared * (nat -> bpc) :=
+  match fuel with
+  | O => c
+  | S f => let l := snd c t in
+           if Nat.eqb (bsite cf (fst c) t l) 0 && negb (bfinal l)
+           then settle cf f t (step (bstep cf) c (t, false)) else c
+  end.
+Definition lock_step (cf : cfg) (c : bshared * (nat -> bpc)) (t : nat) : bshared * (nat -> bpc) :=
+  settle cf 8 t (step (bstep cf) c (t, false)).
+Fixpoint lock_trace (cf : cfg) (sched : list nat) (c : bshared * (nat -> bpc)) (acc : list nat)
+  : list nat * (bshared * (nat -> bpc)) :=
+  match sched with
+  | [] => (rev acc, c)
+  | t :: r => lock_trace cf r (lock_step cf c t) (bsite cf (fst c) t (snd c t) :: acc)
+  end.
+
+(* model-derived acceptor for end-to-end runs (schedule not controlled): the part of chunk idx
+   that a worker calls: from i_begin up to and including the first throwing index *)
+Fixpoint chunk_calls (throws : N -> bool) (i : N) (fuel : nat) (acc : N) : N * bool :=
+  match fuel with
+  | O => (acc, false)
+  | S f => if throws i then (acc + 1, true) else chunk_calls throws (i + 1) f (acc + 1)
+  end.
 
 (* ------------------------------------------------------------------ Part 3: generic bulk *)
 (* bulk_receiver::set_value of bulk.hpp: for (s : shape) f(s, ts...); set_value(ts...) — any
